@@ -267,7 +267,7 @@ func main() {
 	run.Assume("raw permission arrays in a group file grant exactly the listed permissions; role names grant what galene.md documents (op: everything but admin, incl. record when allow-recording; present: present+message; message; observe: nothing; caption)")
 	run.Assume("the stateful token store is read through token.List/token.Get in the server process; the harness serialises its own token operations with those it asks the server to perform")
 	run.Assume("offers carry a real pion SDP without candidates: whether publishing was performed is read from the actor's reply (answer vs abort), media never flows")
-	run.Finish("exploration", "exhaustive matrix message kind (26) x membership state (never, 8 refused-join reasons, joined, left, kicked) x permission set (full, full minus each single permission, each single permission, none, the five roles, present with unrestricted-tokens), one fresh group per case, effects read at observers at logical quiescence; plus token delegation cases (each unheld permission, foreign group, no expiry, taken username, chosen token string, subgroups), cross-group edittoken/listtokens, revocation sequential and racing with the notification, WHIP POST/PATCH/DELETE with every credential class, and seeded random sequences of <= 15 steps against a membership/permission model; evaluations = (state, permissions, message) cases judged; distinct_nontrivial = distinct (kind, state, permission class, expected outcome) tuples")
+	run.Finish("exploration", "exhaustive matrix message kind (24: chat, private chat, caption, usermessage broadcast/private, op, unop, present, unpresent, shutup, unshutup, kick, identify, lock, unlock, clearchat, setdata, subgroups, record, unrecord, maketoken, edittoken, listtokens, offer) x membership state (never, 8 refused-join reasons, joined, left, kicked) x permission set (full, full minus each single permission, each single permission, none, the five roles, present with unrestricted-tokens), one fresh group per case, effects read at observers at logical quiescence; plus token delegation cases (each unheld permission, foreign group, no expiry, taken username, chosen token string, subgroups), cross-group edittoken/listtokens, revocation sequential and racing with the notification, WHIP POST/PATCH/DELETE with every credential class, and seeded random sequences of <= 15 steps against a membership/permission model; evaluations = (state, permissions, message) cases judged; distinct_nontrivial = distinct (kind, state, permission class, expected outcome) tuples")
 }
 
 // plan builds the fixed case list of the tier and cuts it into child batches.
